@@ -829,8 +829,8 @@ def check_dt(spec, acc, origin):
 
 def real_values(t):
     if t == 'real32':
-        return D.real_lattice(32)
-    return D.real_lattice(64) + D.real_lattice(32)
+        return D.real_lattice(32) + D.decimal_lattice(32)
+    return D.real_lattice(64) + D.real_lattice(32) + D.decimal_lattice(64) + D.decimal_lattice(32)
 
 
 def bits(f, t):
